@@ -30,6 +30,8 @@ ASSUMPTIONS = [
 ]
 
 SPAN = [2000, 2001, 2002, 2003]
+SPANS = {'int': [2000, 2001, 2002, 2003], 'alias-named': ['K', 'I', 'J', 'p3']}  # period labels that equal alias names are still period labels
+LAB = {'int': (2001, 2002, 2003), 'alias-named': ('I', 'J', 'p3')}
 VARS = ['Y', 'Z', 'X']
 ALIASES = ['I', 'J', 'K']
 
@@ -79,16 +81,17 @@ INIT = {'Y': [1.0, 2.0, 3.0, 4.0], 'Z': [10.0, 20.0, 30.0, 40.0], 'X': [0.5, 0.2
 WRITE_FORMS = ['ctor', 'setattr', 'setitem', 'setlabel', 'setslice', 'replace', 'attr_elem', 'item_elem']
 
 
-def write(m, form, name, k):
+def write(m, form, name, k, sp='int'):
+    l1, l2, l3 = LAB[sp]
     val = 100.0 + k
     if form == 'setattr':
         setattr(m, name, val)
     elif form == 'setitem':
         m[name] = [val, val + 1, val + 2, val + 3]
     elif form == 'setlabel':
-        m[name, 2001] = val
+        m[name, l1] = val
     elif form == 'setslice':
-        m[name, 2001:2002] = val
+        m[name, l1:l2] = val
     elif form == 'replace':
         m.replace_values(**{name: val})
     elif form == 'attr_elem':
@@ -97,9 +100,14 @@ def write(m, form, name, k):
         m[name][0] = val
 
 
-def reads(m, name):
-    return [canon(np.array(getattr(m, name))), canon(np.array(m[name])), canon(np.array(m[name, 2002])), canon(np.array(m[name, 2001:2003])),
-            canon(np.array(m[name, :2001]))]
+def reads(m, name, sp='int'):
+    l1, l2, l3 = LAB[sp]
+    return [canon(np.array(getattr(m, name))), canon(np.array(m[name])), canon(np.array(m[name, l2])), canon(np.array(m[name, l1:l3])),
+            canon(np.array(m[name, :l1]))]
+
+
+def amap_effective(amap):
+    return [a for a in amap if resolve(amap, a) in VARS]
 
 
 def state(m):
@@ -125,14 +133,27 @@ def run_history_case(case):
         kw_alias[n] = [200.0 + k] * 4
         kw_twin[c] = [200.0 + k] * 4
     strict = bool(case.get('strict'))
+    sp = case.get('span', 'int')
+    span = SPANS[sp]
+    if case.get('via_dataframe'):
+        # alternative constructor: the columns of a table are constructor keywords, aliases included
+        import pandas as pd
+        try:
+            m = cls.from_dataframe(pd.DataFrame(kw_alias, index=list(span)), strict=strict)
+        except Exception as e:
+            return [('from_dataframe:%s' % type(e).__name__, 'constructs', repr(e)[:200], 'from_dataframe with an alias-named column failed')]
+        twin = _BASE.from_dataframe(pd.DataFrame(kw_twin, index=list(span)), strict=strict)
+        if state(m) != state(twin):
+            return [('from_dataframe:alias-column', 'same as the canonical column', 'differs', 'a column named by an alias is not loaded into the variable it names')]
+        return []
     try:
-        m = cls(list(SPAN), strict=strict, **kw_alias)
+        m = cls(list(span), strict=strict, **kw_alias)
     except Exception as e:
         amb = len({resolve(amap, p) for p in pref}) < len(pref)
         if amb and isinstance(e, ValueError):
             return []
         return [('constructor:%s' % type(e).__name__, 'constructs', repr(e)[:200], 'aliased model cannot be constructed')]
-    twin = _BASE(list(SPAN), strict=strict, **kw_twin)
+    twin = _BASE(list(span), strict=strict, **kw_twin)
     if state(m) != state(twin):
         out.append(('ctor-keyword', 'same as canonical keyword', 'differs', 'constructor keyword through an alias differs'))
         return out
@@ -143,11 +164,11 @@ def run_history_case(case):
         if c not in VARS:
             continue  # a self-mapped alias names no variable: nothing to compare
         try:
-            write(m, form, name, k)
+            write(m, form, name, k, sp)
         except Exception as e:
             out.append(('write:%s:%s' % (form, type(e).__name__), 'as canonical', repr(e)[:200], 'write through an alias failed'))
             return out
-        write(twin, form, c, k)
+        write(twin, form, c, k, sp)
         if state(m) != state(twin) or list(m.index) != list(twin.index):
             out.append(('write:%s' % form, 'same effect as on the underlying variable', 'differs', 'write through an alias has a different effect'))
             return out
@@ -160,12 +181,20 @@ def run_history_case(case):
         if c not in VARS:
             continue
         try:
-            if reads(m, name) != reads(twin, c):
+            if reads(m, name, sp) != reads(twin, c, sp):
                 out.append(('read', 'same as canonical', 'differs', 'read through an alias differs'))
                 return out
         except Exception as e:
             out.append(('read:%s' % type(e).__name__, 'as canonical', repr(e)[:200], 'read through an alias failed'))
             return out
+    comp = m._ipython_key_completions_()
+    dir(m)
+    m._ipython_key_completions_()
+    if not set(amap_effective(amap)) <= set(comp) or not set(twin.index) <= set(comp):
+        out.append(('completions:content', sorted(set(twin.index) | set(amap_effective(amap))), sorted(comp), 'key completions must list the variables and the aliases'))
+    if list(m.index) != list(twin.index) or state(m) != state(twin) or m.nbytes != twin.nbytes:
+        out.append(('completions:side-effect', list(twin.index), list(m.index), 'asking for key completions / dir() changed the model (aliases must create no storage)'))
+        return out
     ra = m.solve(failures='ignore')
     rb = twin.solve(failures='ignore')
     if canon(ra) != canon(rb) or state(m) != state(twin):
@@ -288,6 +317,24 @@ def run_block(block, tier, seed):
         names = list(amap) + VARS
         singles = [(f, n) for f in WRITE_FORMS for n in names]
         hists = [[h] for h in singles]
+        for hist in hists:  # every single-operation history also on a span whose labels equal alias names, and via from_dataframe
+            extra_cases = [{'span': 'alias-named'}]
+            if hist[0][0] == 'ctor':
+                extra_cases.append({'via_dataframe': True})
+            for extra in extra_cases:
+                case = dict({'amap': amap, 'pref': [], 'hist': [list(h) for h in hist]}, **extra)
+                acc.evaluations += 1
+                acc.transitions += 1
+                try:
+                    with guard(10):
+                        v = run_history_case(case)
+                except CaseTimeout:
+                    acc.violation('timeout', case, 'termination', 'timeout')
+                    continue
+                acc.traces += 1
+                acc.nontrivial += any(n in amap for _, n in hist)
+                for key, exp, obs, what in v:
+                    acc.violation(key + ':' + ('labels-named-like-aliases' if 'span' in extra else 'from_dataframe'), case, exp, obs, what)
         for hist in hists:  # every single-operation history also on a strict model
             case = {'amap': amap, 'pref': [], 'hist': [list(h) for h in hist], 'strict': True}
             acc.evaluations += 1
